@@ -166,13 +166,13 @@ func modelEval(steps []MStep, root interface{}) []interface{} {
 	return nodes
 }
 
-func orderPath(trap bool) *PathSpec {
+func orderPath(doc interface{}, trap bool) *PathSpec {
 	if chance(65) {
 		return genModelPath(trap)
 	}
 	// any path, but make sure an object traversal is in it
 	for i := 0; i < 8; i++ {
-		p := genPath(0, trap, 4, 0)
+		p := genPathFor(doc, 0, trap, 4, 0)
 		for _, s := range []string{"*", "..", "?("} {
 			if containsStr(p.Text, s) {
 				return p
@@ -199,23 +199,25 @@ func runC07() *RunResult {
 	ncase := 1 + rn(2)
 	cases := []uint64{}
 	type kase struct {
-		p      *PathSpec
-		doc    interface{}
-		solo   string
-		model  string
-		hasMod bool
-		fn     *ParsedFn
+		p         *PathSpec
+		doc       interface{}
+		solo      string
+		model     string
+		hasMod    bool
+		modelVals []interface{}
+		fn        *ParsedFn
 	}
 	var ks []*kase
 	simrt.SetMode(simrt.ModeSolo)
 	ref := &Recorder{}
 	for c := 0; c < ncase; c++ {
-		k := &kase{p: orderPath(true)}
+		k := &kase{}
 		if chance(70) {
 			k.doc = dg.orderObject(1 + rn(3))
 		} else {
 			k.doc = dg.doc(true)
 		}
+		k.p = orderPath(k.doc, true)
 		pf := soloParse(k.p, CfgSpec{})
 		if pf.Fn == nil {
 			continue
@@ -225,6 +227,7 @@ func runC07() *RunResult {
 			k.hasMod = true
 			if r := modelEval(k.p.Model, k.doc); len(r) > 0 {
 				k.model = canon(r)
+				k.modelVals = r
 			} else {
 				k.model = "ERR"
 			}
@@ -266,10 +269,11 @@ func runC07() *RunResult {
 			o := &Op{Kind: opCustom, Path: k.p}
 			o.Do = func(t *Task, o *Op) {
 				simrt.SetMapPolicy(pol)
+				var res []interface{}
 				if useRetrieve {
-					_, o.Got = safeRetrieve(k.p.Text, d, nil)
+					res, o.Got = safeRetrieve(k.p.Text, d, nil)
 				} else {
-					_, o.Got = safeCall(k.fn.Fn, d)
+					res, o.Got = safeCall(k.fn.Fn, d)
 				}
 				if simrt.Aborted() != 0 {
 					return
@@ -284,7 +288,11 @@ func runC07() *RunResult {
 					if len(got) > 3 && got[:4] == "ERR<" {
 						got = "ERR"
 					}
-					if got != k.model {
+					// C07 is about ORDER: when the library selects other values than the model
+					// (a different multiset, or error vs. result) that is C01's business
+					if got != k.model && (res == nil || !sameMultiset(res, k.modelVals)) {
+						t.probe("selection-differs-from-model(not-judged)")
+					} else if got != k.model {
 						t.fail("C07:order-differs-from-specification", k.p.Text, fmt.Sprintf("%v\n  document %s\n  got       %s\n  specified %s", o, clip(canon(k.doc), 400), clip(o.Got, 400), clip(k.model, 400)))
 					}
 				}
@@ -303,4 +311,23 @@ func runC07() *RunResult {
 		}
 	}
 	return res
+}
+
+func sameMultiset(a, b []interface{}) bool {
+	if len(a) != len(b) {
+		return false
+	}
+	x := make([]string, len(a))
+	y := make([]string, len(b))
+	for i := range a {
+		x[i], y[i] = canon(a[i]), canon(b[i])
+	}
+	sort.Strings(x)
+	sort.Strings(y)
+	for i := range x {
+		if x[i] != y[i] {
+			return false
+		}
+	}
+	return true
 }
